@@ -439,6 +439,10 @@ class Interp:
             if f.attr == 'join' and len(e.args) == 1:
                 sep = self.ev(f.value, env)
                 arg = self.ev(e.args[0], env)
+                if isinstance(arg, T) and isinstance(e.args[0], ast.Name) and e.args[0].id in self.__dict__.get('piece_names', ()):
+                    if isinstance(sep, Lit) and sep.v == '':
+                        return arg
+                    raise _nt(e, '(piece list joined with a non-empty separator)')
                 if not isinstance(arg, ListOf):
                     raise _nt(e, '(join over non-list)')
                 if arg.item is None:
@@ -724,6 +728,25 @@ class Interp:
                     and isinstance(env.get(f.value.id), ListOf) and hasattr(env[f.value.id], 'items') and len(c.args) == 1:
                 env[f.value.id].items.append(self.as_str(self.ev(c.args[0], env), st))
                 return None
+            # a local list used as a piece accumulator (append / extend in program order, joined with '' at the end):
+            # the list is represented by the concatenation of its items
+            if isinstance(f, ast.Attribute) and f.attr in ('append', 'extend') and isinstance(f.value, ast.Name) and len(c.args) == 1 and not c.keywords:
+                name = f.value.id
+                cur = env.get(name)
+                names = self.__dict__.setdefault('piece_names', set())
+                if isinstance(cur, ListOf) and not hasattr(cur, 'items'):
+                    cur = Lit('') if cur.item is None else Star(self.as_str(self.item_of(cur), st), cur.src, 1 if getattr(cur, 'nonempty', False) else 0)
+                    names.add(name)
+                if isinstance(cur, T) and name in names:
+                    if f.attr == 'append':
+                        piece = self.as_str(self.ev(c.args[0], env), st)
+                    else:
+                        lst = self.resolve(self.ev(c.args[0], env))
+                        if not isinstance(lst, ListOf):
+                            raise _nt(st, '(extend with a non-list)')
+                        piece = Lit('') if lst.item is None else Star(self.as_str(self.item_of(lst), st), lst.src, 1 if getattr(lst, 'nonempty', False) else 0)
+                    env[name] = cat(cur, piece)
+                    return None
             if self.call_hook is not None:
                 r = self.call_hook(self, c, env)
                 if r is not NotImplemented:
@@ -798,11 +821,14 @@ class Interp:
                     for x in ast.walk(t):
                         if isinstance(x, ast.Name) and isinstance(env.get(x.id), T) and x.id in env:
                             pass
+        for a in mod:
+            cur = env.get(a)
+            if isinstance(cur, ListOf) and cur.item is not None and not hasattr(cur, 'items'):
+                # a second loop appending to the same list: from here on the list is a piece accumulator
+                env[a] = Star(self.as_str(self.item_of(cur), st), cur.src, 1 if getattr(cur, 'nonempty', False) else 0)
+                self.__dict__.setdefault('piece_names', set()).add(a)
         sacc = [a for a in mod if isinstance(env.get(a), T)]
         lacc = [a for a in mod if isinstance(env.get(a), ListOf)]
-        for a in lacc:
-            if env[a].item is not None:
-                raise _nt(st, '(append to a non-empty list)')
 
         def body():
             env2 = dict(env)
